@@ -984,8 +984,61 @@ def _expand_module_aliases(tree):
     return count[0]
 
 
+def _expand_module_constants(tree):
+    """`_BATCH = 2048`, `_UINT32_MAX = 2**32 - 1`, `_ONE = np.uint64(1)` at module level (bound once, a constant expression):
+    every use is replaced by the expression."""
+    stores = {}
+    for n in ast.walk(tree):
+        if isinstance(n, ast.Name) and isinstance(n.ctx, (ast.Store, ast.Del)):
+            stores[n.id] = stores.get(n.id, 0) + 1
+        elif isinstance(n, ast.arg):
+            stores[n.arg] = stores.get(n.arg, 0) + 1
+        elif isinstance(n, (ast.FunctionDef, ast.ClassDef)):
+            stores[n.name] = stores.get(n.name, 0) + 1
+        elif isinstance(n, (ast.Global, ast.Nonlocal)):
+            for nm in n.names:
+                stores[nm] = stores.get(nm, 0) + 2
+
+    def const_expr(v, known):
+        if isinstance(v, ast.Constant):
+            return isinstance(v.value, (int, float)) and not isinstance(v.value, bool)
+        if isinstance(v, ast.Name):
+            return v.id in known
+        if isinstance(v, ast.UnaryOp) and isinstance(v.op, (ast.USub, ast.UAdd, ast.Invert)):
+            return const_expr(v.operand, known)
+        if isinstance(v, ast.BinOp) and isinstance(v.op, (ast.Add, ast.Sub, ast.Mult, ast.Pow, ast.LShift, ast.RShift, ast.FloorDiv, ast.BitAnd, ast.BitOr, ast.Div)):
+            return const_expr(v.left, known) and const_expr(v.right, known)
+        if isinstance(v, ast.Call) and len(v.args) == 1 and not v.keywords:
+            f = v.func
+            nm = f.id if isinstance(f, ast.Name) else f.attr if isinstance(f, ast.Attribute) and isinstance(f.value, ast.Name) and f.value.id in ("np", "numpy") else None
+            if nm in ("uint8", "uint16", "uint32", "uint64", "int8", "int16", "int32", "int64", "float32", "float64", "int", "float"):
+                return const_expr(v.args[0], known)
+        return False
+    consts = {}
+    for n in tree.body:
+        if isinstance(n, ast.Assign) and len(n.targets) == 1 and isinstance(n.targets[0], ast.Name) and stores.get(n.targets[0].id) == 1 \
+                and const_expr(n.value, consts):
+            consts[n.targets[0].id] = n.value
+        elif isinstance(n, ast.AnnAssign) and n.value is not None and isinstance(n.target, ast.Name) and stores.get(n.target.id) == 1 \
+                and const_expr(n.value, consts):
+            consts[n.target.id] = n.value
+    if not consts:
+        return 0
+    count = [0]
+
+    class T(ast.NodeTransformer):
+        def visit_Name(self, n):
+            if isinstance(n.ctx, ast.Load) and n.id in consts:
+                count[0] += 1
+                return ast.copy_location(self.visit(copy.deepcopy(consts[n.id])), n)
+            return n
+    T().visit(tree)
+    return count[0]
+
+
 def normalize(tree):
     _expand_module_aliases(tree)
+    _expand_module_constants(tree)
     inl = Inliner(tree)
     n = inl.run()
     tree._inlined_helpers = set(inl.inlined_names)
